@@ -17,7 +17,7 @@ class Gen:
     self.r = r
     self.n = 0
     self.scope = dict(regions=(0, 3), max_depth=2, styles=True, ruby=True, animation=True, timing=True, display=True, space=True,
-                      rich_styles=False)
+                      rich_styles=False, bgfocus=False)
     if scope:
       self.scope.update(scope)
 
@@ -172,7 +172,38 @@ class Gen:
         d.push_child(self.div(doc, regions, depth + 1))
     return d
 
+  def region_bgfocus(self, doc, rid):
+    """regions whose background visibility is decided by the interplay of specified values, <initial> values and animation,
+    at instants that lie outside the text content (the case the content-interval short cut of ISD.from_model must get right)"""
+    r = self.r
+    reg = m.Region(rid, doc)
+    if r.random() < 0.3:
+      reg.set_begin(r.choice([None, Fraction(0), Fraction(20)]))
+      reg.set_end(r.choice([None, Fraction(50), Fraction(25)]))
+    spec = [
+      (SP.ShowBackground, [sp.ShowBackgroundType.whenActive, sp.ShowBackgroundType.always]),
+      (SP.BackgroundColor, [sp.NamedColors.red.value, sp.ColorType((0, 0, 0, 0)), sp.NamedColors.transparent.value]),
+      (SP.Opacity, [0, 1, 0.5]),
+      (SP.Visibility, [sp.VisibilityType.hidden, sp.VisibilityType.visible]),
+      (SP.Display, [sp.DisplayType.none, sp.DisplayType.auto]),
+    ]
+    for prop, vals in spec:
+      if r.random() < 0.35:
+        reg.set_style(prop, r.choice(vals))
+    for _ in range(r.choice([0, 1, 1, 2])):
+      prop, vals = r.choice(spec)
+      vis = {SP.ShowBackground: sp.ShowBackgroundType.always, SP.BackgroundColor: sp.NamedColors.green.value, SP.Opacity: 1.0,
+             SP.Visibility: sp.VisibilityType.visible, SP.Display: sp.DisplayType.auto}
+      val = vis[prop] if r.random() < 0.7 else r.choice(vals)
+      b = r.choice([None, Fraction(12), Fraction(30), Fraction(1)])
+      e = r.choice([None, Fraction(14), Fraction(40), Fraction(3)])
+      reg.add_animation_step(m.DiscreteAnimationStep(prop, b, e, val))
+    doc.put_region(reg)
+    return reg
+
   def region(self, doc, rid):
+    if self.scope["bgfocus"]:
+      return self.region_bgfocus(doc, rid)
     r = self.r
     reg = m.Region(rid, doc)
     self.timing(reg, 0.3)
@@ -219,6 +250,13 @@ class Gen:
       doc.put_initial_value(SP.ShowBackground, sp.ShowBackgroundType.whenActive)
     if r.random() < 0.1:
       doc.put_initial_value(SP.Color, sp.NamedColors.yellow.value)
+    if self.scope["bgfocus"] or r.random() < 0.08:
+      if r.random() < 0.5:
+        doc.put_initial_value(SP.BackgroundColor, r.choice([sp.NamedColors.red.value, sp.ColorType((0, 0, 255, 128))]))
+      if r.random() < 0.2:
+        doc.put_initial_value(SP.Opacity, r.choice([0, 1]))
+      if r.random() < 0.2:
+        doc.put_initial_value(SP.Visibility, sp.VisibilityType.hidden)
     lo, hi = self.scope["regions"]
     regions = [self.region(doc, f"r{i + 1}") for i in range(r.randint(lo, hi))]
     if r.random() < 0.95:
